@@ -291,6 +291,14 @@ func runC01(c *mon.Ctx) {
 		}
 		r := c.Rng("readd-auto", i)
 		ops := readdAutoScenario(r)
+		if i%3 == 1 {
+			ops = autoCollisionScenario(r)
+			c.Count("explicit_pids_in_the_automatic_range_out_of_order")
+		}
+		if i%3 == 2 {
+			ops = exactPMTScenario(r)
+			c.Count("pmt_filling_its_packet_exactly")
+		}
 		hr := runHistory(ops, 1+r.IntN(6))
 		checkRoundTrip(c, "readd-auto", i, hr)
 		c.Count("explicit_pid_reassigned_automatically")
